@@ -9,7 +9,7 @@ R4.le            every multi-byte primitive is little-endian (part of the compar
 import re
 
 from .. import anchors as A
-from ..facts import walk_body, loc, peel, callee_name
+from ..facts import user_macros_of, walk_body, loc, peel, callee_name
 from ..census import local_of
 from ..symdbg import fmt_term
 from ..symex import lit
@@ -89,6 +89,10 @@ def run(ck, fx, cg, tier):
         ck.ob("R4.source", "%s|input reader" % fn, ok, where,
               "the input reader is %s" % why if ok else "the bytes of a file can be altered before the loader sees them: the input reader is %s" % why)
     ck.floor("R4.source", "places that build the CLI's input reader", len(sites), 1)
+    from . import shared as _sh
+    okd, whered, whyd = _sh.bc_deserialize_plain(fx, A)
+    if ck.anchor("R4.source", "BCSerializer::deserialize", True if okd is not None else None):
+        ck.ob("R4.source", "the bytecode deserializer hands the reader untouched to Program::from_bytes", okd is True, whered, whyd)
 
 
 def _frame(ck, fx):
@@ -233,6 +237,27 @@ def _notrailing(ck, fx, cg):
             ck.ob("R4.notrailing", "%s|output file is truncated on open" % hb["path"], ok, loc(node),
                   "opened with %s%s" % (how, "" if ok else " — compiling over an older, longer file leaves its tail after the entry index (trailing bytes)"))
     ck.floor("R4.notrailing", "output-file opens examined", n_open, 1)
+    # stdout IS the output file of `fml compile` without -o: nothing reachable from the action may print to it
+    roots = cg.dids_of(A.get("cli.compile"))
+    n_reach = 0
+    for d in sorted(cg.reachable(roots)) if roots else []:
+        hb = fx.hir_by_did.get(d)
+        if hb is None or hb["from_expansion"]:
+            continue
+        n_reach += 1
+        seen_here = set()
+        for n, ps in walk_body(hb):
+            ms = set(user_macros_of(n)) & {"println", "print", "dbg"}
+            if ms and n.get("k") in ("Call", "MethodCall", "FormatArgs") and ("print" not in seen_here):
+                seen_here.add("print")
+                ck.ob("R4.notrailing", "%s|%s!" % (hb["path"], sorted(ms)[0]), False, loc(n),
+                      "%s! on the compile path: the text lands in front of / inside the bytecode when it is written to stdout (`fml compile x > out.bc`)" % sorted(ms)[0])
+            if n.get("k") in ("Call", "MethodCall") and callee_name(n) == "std::io::stdout" and not hb["path"].startswith("NamedSink::"):
+                ck.ob("R4.notrailing", "%s|stdout()" % hb["path"], False, loc(n), "std::io::stdout() used on the compile path outside NamedSink")
+    ck.ob("R4.notrailing", "nothing else prints to stdout on the compile path", True, "", "%d reachable function(s) examined" % n_reach, nontrivial=False)
+    ck.floor("R4.notrailing", "functions reachable from the compile action", n_reach, 20)
+    from .. import canary as _canary
+    _canary.require(ck, {"R4.stdout"})
     b2 = fx.body(A.get("cli.bc.serialize"))
     if ck.anchor("R4.notrailing", "BCSerializer::serialize", b2):
         calls = [callee_name(n) for n, ps in walk_body(b2) if n.get("k") in ("Call", "MethodCall") and n.get("callee") and not (callee_name(n) or "").startswith("core::panicking")]
